@@ -383,7 +383,7 @@ theorem wsNL_isBlank (ws : Str) (h : wsNL ws = true) : isBlank ws = true := by
   rfl
 
 /-- what `leadDoctype` splits off is a prefix made of outer tokens -/
-theorem leadDoctype_split (toks pre r : List Token) (h : leadDoctype toks = some (pre, r)) :
+theorem leadDoctype_outer (toks pre r : List Token) (h : leadDoctype toks = some (pre, r)) :
     toks = pre ++ r ∧ ∀ t ∈ pre, isOuter t = true := by
   unfold leadDoctype at h
   split at h
@@ -399,5 +399,31 @@ theorem leadDoctype_split (toks pre r : List Token) (h : leadDoctype toks = some
       · simp [isOuter]
     · simp at h
   · simp at h
+
+
+/-- the second pass as `feed` builds it (`wrapToks`): accepted whenever the input has no end tag of the wrapper -/
+theorem runT_wrapToks_ok (toks : List Token) (hw : ∀ t ∈ toks, t ≠ Token.end_ wrapperName) :
+    ∃ s', runT TState.init (wrapToks toks) = .ok s' := by
+  have hpost : ∀ t ∈ [Token.end_ wrapperName], isOuter t = true := by simp [isOuter]
+  unfold wrapToks
+  cases hl : leadDoctype toks with
+  | none =>
+    have := runT_wrapped_general wrapperName wrapper_lower wrapper_not_void [] toks [.end_ wrapperName] []
+      (by simp) hw hpost
+    simpa using this
+  | some p =>
+    obtain ⟨pre, r⟩ := p
+    obtain ⟨htoks, hpre⟩ := leadDoctype_outer toks pre r hl
+    have hwr : ∀ t ∈ r, t ≠ Token.end_ wrapperName :=
+      fun t ht => hw t (by rw [htoks]; exact List.mem_append_right _ ht)
+    have := runT_wrapped_general wrapperName wrapper_lower wrapper_not_void pre r [.end_ wrapperName] []
+      hpre hwr hpost
+    simpa using this
+
+theorem start_mem_wrapToks (toks : List Token) : Token.start wrapperName [] ∈ wrapToks toks := by
+  unfold wrapToks
+  cases leadDoctype toks with
+  | none => simp
+  | some p => simp
 
 end AHP
